@@ -320,6 +320,7 @@ def run_shard(args):
 # ---- interpreter modes: the same parts once more in a child interpreter started differently -----------------------------
 # "O": python -O (asserts stripped, __debug__ False); "W": every warning issued while library code runs is an error
 # (python -W error); a check names the parts worth repeating there in MODE_PARTS = {"OW": [part names]}.
+# (W also switches the library's logging to DEBUG with a handler that formats every record.)
 MODES = {"O": {"PYTHONOPTIMIZE": "1"}, "W": {"VERIF_WARN_ERROR": "1"}, "OW": {"PYTHONOPTIMIZE": "1", "VERIF_WARN_ERROR": "1"}}
 
 
@@ -335,6 +336,17 @@ def apply_mode():
         # the harness's own dependencies may warn about themselves: not the library's business
         for m in ("hypothesis", "_pytest", "pytest", "multiprocessing"):
             warnings.filterwarnings("default", module=m + r"(\.|$)")
+        # ... and with diagnostics switched on: every log record of the library is formatted (at DEBUG level), so whatever a
+        # logging call evaluates or gets wrong happens inside the call that logs
+        import logging
+
+        class _Format(logging.Handler):
+            def emit(self, record):
+                record.getMessage()
+        lg = logging.getLogger("pymemcache")
+        lg.setLevel(logging.DEBUG)
+        lg.addHandler(_Format())
+        lg.propagate = False
 
 
 def write_replay(prop, part_name, case, signature, message):
